@@ -281,6 +281,16 @@ fn check_desc(rep: &Report, c: &DescCase, thorough: bool, cen: &mut Census) {
                     }
                 }
             }
+            // nested segwit: the scriptSig (redeem script push) mutated under the unchanged witness
+            if !script_sig.is_empty() && !witness.is_empty() {
+                if let Some(el) = elements_of_script_sig(script_sig.as_bytes()) {
+                    for m in mutations(&el, &extra, thorough) {
+                        if m.iter().all(|e| e.len() <= 520) {
+                            cands.push(Cand { ss: script_sig_of_elements(&m), wit: witness.clone(), unmutated: false });
+                        }
+                    }
+                }
+            }
             for cand in &cands {
                 bump(cen, "evaluations");
                 let r = match run_interp(c, &spend, cand) {
